@@ -27,7 +27,8 @@ ID = "C10"
 LEVEL = "model_checking"
 RULE = (
     "complete product of rod formulations (6 interpolation/degree x {displacement,mixed} x 5 constraint sets x "
-    "element counts x reference configurations [+ full integration and Harsch2021 letters in the thorough tier]); "
+    "element counts x reference configurations [thorough: nel=3 only on the references straight_pose and helix; + full "
+    "integration and Harsch2021 letters]); "
     "per formulation all states base o motion o deviation (3 bases, every single-coordinate deviation of the "
     "deformed base, thorough: all coordinate pairs within a node) x all rigid motions.  A case is non-trivial if "
     "the deformed states really are strained (E_pot > 1e-6 or non-zero compliance/constraint residual) and at "
